@@ -7,3 +7,9 @@ claim("C10",
       "Decides, for every path of every function in package runtime, that each access to a VM registry map happens under vm.mu (write lock for stores), that lock-free helpers are only called with the lock held, and that a duplicate check and its store share one critical section. This is the synchronisation structure necessary for 'no data race, one winner per name'; linearizability of whole histories is not decided.",
       "trusts sync.RWMutex semantics and the Go type checker; guard table derived from the VM struct (all map fields); closures analysed as entered unlocked; aliasing of two different VM objects ignored",
       "DESIGN.md §2 C10")
+
+claim("C13",
+      "typestate dataflow (commit-once flag) over bufferedWriter's methods with computed method summaries; who-may-touch check of the raw writer; pairing check of beginResponse/commitPending",
+      "Decides on every path of bufferedWriter's methods that the underlying WriteHeader is reachable only once (tested-false then set-true), that body bytes reach the underlying writer only after the commit, that status/statusSet are frozen after the commit, that a recorded status is marked pending or committed, that the committed code is the recorded status, that nothing outside bufferedWriter touches the raw writer, and that every beginResponse is paired with a deferred commitPending. These make the commit-once clauses hold for every call order; the bytes the client sees and middleware ordering are not decided.",
+      "trusts the net/http.ResponseWriter contract; method summaries recomputed each run; single goroutine per response; middleware order clause explicitly not claimed",
+      "DESIGN.md §2 C13")
